@@ -76,6 +76,7 @@ def run(ck):
     ck.rule("C02.R3", "per-thread default is written only by set_default/guard drop, never from get_global()", floor=3)
     ck.rule("C02.R4", "global default: single CAS-guarded write, published before INITIALIZED, guarded read", floor=5)
     ck.rule("C02.R5", "EXISTS set by both install paths", floor=2)
+    ck.rule("C02.R6", "the re-entrancy flag taken by get_default/get_current is given back on every exit, unwinding included (RAII)", floor=3)
     for cfg in configs:
         F = Facts(cfg)
         ck.configs.append(cfg)
@@ -87,6 +88,8 @@ def run(ck):
             r3(ck, F)
         r4(ck, F)
         r5(ck, F, std)
+        if std:
+            r6(ck, F)
     ck.tag = ""
 
 
@@ -465,3 +468,116 @@ def r5(ck, F, std, rid="C02.R5"):
             ck.ok(rid, key, fn=fp)
         else:
             ck.bad(rid, key, where(b.raw["sp"]), "a successful return path does not set EXISTS", fn=fp)
+
+
+# ---------------------------------------------------------------------- R6
+def restoring_types(F):
+    """ADTs whose Drop impl sets a Cell<bool> to true (the `Entered` guards of the dispatch module)."""
+    out = {}
+    for i in F.impls:
+        if i.get("trait") != "core::ops::drop::Drop" or i.get("crate") != "tracing_core":
+            continue
+        b = F.body(i["methods"].get("drop", ""))
+        if b is None:
+            continue
+        for bb, t in b.calls():
+            c = t["callee"]
+            if c.get("method") == "set" and "Cell" in c.get("path", "") and len(t["argv"]) == 2:
+                v = b.origin(t["argv"][1])
+                names = recv_field(b, t)[1]
+                if v[0] == "const" and v[1].get("int") == 1 and (not names or names[-1] in ("can_enter", "0")):
+                    out[i["self_ty"].split("<")[0]] = b.path
+    return out
+
+
+def r6(ck, F, rid="C02.R6"):
+    """While a collector callback runs through get_default/get_current, `can_enter` is false so that re-entrant calls see
+    NoCollector. If the flag is not given back when the callback panics, every later emission on the thread is lost."""
+    rest = restoring_types(F)
+    if not rest:
+        ck.bad(rid, "a guard type restores can_enter in its Drop impl", D, "no `impl Drop` in tracing_core::dispatch sets the flag back to true")
+        return
+    ck.ok(rid, "guard types restoring can_enter on drop", detail=sorted(rest))
+    takes = []
+    for b in F.body_list:
+        if b.crate != "tracing_core":
+            continue
+        for bb, t in b.calls():
+            c = t["callee"]
+            if c.get("method") in ("replace", "set", "take") and "Cell" in c.get("path", "") and "RefCell" not in c.get("path", ""):
+                names = recv_field(b, t)[1]
+                if names[-1:] != ["can_enter"]:
+                    continue
+                if c.get("method") == "set":
+                    v = b.origin(t["argv"][1])
+                    if v[0] == "const" and v[1].get("int") == 1:
+                        continue        # giving back
+                takes.append((b, bb, t))
+    for b, bb, t in takes:
+        key = "%s: can_enter taken => given back by a guard on every exit" % b.path.replace(D, "")
+        # guard locals of a restoring type in this body
+        glocals = [i for i, ty in enumerate(b.locals) if ty.split("<")[0] in rest]
+        gdrops = [i for i, blk in enumerate(b.blocks) if blk["term"]["k"] == "drop" and "p" not in blk["term"]["place"] and blk["term"]["place"]["l"] in glocals]
+        # an explicit `can_enter.set(true)` also gives the flag back (on the path it lies on)
+        for sb, st in b.calls():
+            sc = st["callee"]
+            if sc.get("method") == "set" and "Cell" in sc.get("path", "") and recv_field(b, st)[1][-1:] == ["can_enter"]:
+                v = b.origin(st["argv"][1])
+                if v[0] == "const" and v[1].get("int") == 1:
+                    gdrops.append(sb)
+        # shape B: the guard is the function's result on the taken edge
+        ret_ty = b.locals[0].split("<")[0] if b.locals else ""
+        returns_guard = any(k in b.locals[0] for k in rest) if b.locals else False
+        problems = []
+        n = 0
+        ev = PathEval(b, unwind=True)
+        for p in ev.run():
+            if bb not in p.blocks or p.end not in ("return", "resume"):
+                continue
+            i = p.blocks.index(bb)
+            if i + 1 >= len(p.blocks) or p.blocks[i + 1] != t.get("ret"):
+                continue
+            taken = [c for c in p.conds if c[0][0] == "call" and c[0][3] == bb]
+            if taken and taken[0][1] == 0:
+                continue                # flag was already false: nothing taken on this path
+            n += 1
+            after = p.blocks[i + 1:]
+            if p.end == "return" and returns_guard and p.ret is not None and any(k.rsplit("::", 1)[-1] in show(p.ret) for k in rest):
+                continue                # ownership of the flag moves to the caller inside the guard value
+            if any(x in gdrops for x in after):
+                # calls between the take and the guard's construction/drop must not unwind past it
+                continue
+            problems.append("on a path ending in %s the flag is never given back%s" % (p.end, ": a callback that panics leaves every later emission on this thread going to NoCollector" if p.end == "resume" else ""))
+        # calls after the take whose unwinding leaves the function without any cleanup
+        reach = b.reachable(t["ret"]) if t.get("ret") is not None else set()
+        for cb in sorted(reach):
+            ct = b.term(cb)
+            if ct["k"] == "call" and not isinstance(ct.get("unwind"), int) and ct.get("unwind") == "continue" and not returns_guard:
+                callee = ct["callee"].get("path", "")
+                if ct["callee"].get("method") in ("call_once", "call_mut", "call") or callee.startswith("tracing_core::dispatch::get_global"):
+                    if ct["callee"].get("method") in ("call_once", "call_mut", "call"):
+                        problems.append("the callback at bb%d can unwind out of the function with no cleanup path: can_enter stays false on this thread" % cb)
+        if ev.truncated:
+            problems.append("path enumeration truncated")
+        if not n:
+            problems.append("no path takes the flag")
+        if problems:
+            ck.bad(rid, key, where(b.raw["sp"]), "; ".join(sorted(set(problems))[:3]), fn=b.path)
+        else:
+            ck.ok(rid, key, fn=b.path, detail="%d paths" % n)
+    # callers of State::enter keep the returned guard across the callback
+    ent = D + "State::enter"
+    for x, bb, t in F.callers().get(ent, []):
+        key = "%s holds the guard returned by State::enter across the callback" % x.path.replace(D, "")
+        glocals = [i for i, ty in enumerate(x.locals) if ty.split("<")[0] in rest]
+        gdrops = [i for i, blk in enumerate(x.blocks) if blk["term"]["k"] == "drop" and "p" not in blk["term"]["place"] and blk["term"]["place"]["l"] in glocals]
+        fcalls = [cb for cb, ct in x.calls() if ct["callee"].get("method") in ("call_once", "call_mut", "call") and cb in x.reachable(bb)]
+        problems = []
+        for cb in fcalls:
+            problems += dropped_on_all_exits(x, cb, gdrops)
+        if not fcalls:
+            problems.append("no callback invocation after State::enter")
+        if problems:
+            ck.bad(rid, key, where(x.raw["sp"]), "; ".join(sorted(set(problems))[:3]), fn=x.path)
+        else:
+            ck.ok(rid, key, fn=x.path)
